@@ -816,40 +816,31 @@ func (n *IncludeNode) Render(w io.Writer, ctx *RenderContext) error {
 
 	// Need a new context for 'only' mode, sandboxed mode, or with variables
 	includeCtx := ctx
-	if !n.only && !n.sandboxed {
+	if !n.only {
 		// Variables passed with 'with' (and everything the included template
 		// assigns) belong to the included template only: it gets a child
-		// context that reads through to the including template's variables
+		// context that reads through to all variables the including template
+		// sees, wherever they live (loop, macro or outer include scope)
 		includeCtx = ctx.Clone()
 		includeCtx.lastLoadedTemplate = template
 		defer includeCtx.Release()
 	} else {
-		var contextVars map[string]interface{}
-
-		if n.only {
-			// Only mode - create empty context
-			contextVars = make(map[string]interface{}, len(n.variables))
-		} else {
-			// For sandboxed mode but not 'only' mode, copy the parent context
-			contextVars = make(map[string]interface{}, len(ctx.context)+len(n.variables))
-			for k, v := range ctx.context {
-				contextVars[k] = v
-			}
-		}
+		// Only mode - create empty context
+		contextVars := make(map[string]interface{}, len(n.variables))
 
 		// Create a new context
 		includeCtx = NewRenderContext(ctx.env, contextVars, ctx.engine)
 		// Set the template as the lastLoadedTemplate for relative path resolutionn			includeCtx.lastLoadedTemplate = template
 		defer includeCtx.Release()
+	}
 
-		// If sandboxed, enable sandbox mode
-		if n.sandboxed {
-			includeCtx.sandboxed = true
+	// If sandboxed, enable sandbox mode
+	if n.sandboxed {
+		includeCtx.sandboxed = true
 
-			// Check if a security policy is defined
-			if ctx.env.securityPolicy == nil {
-				return fmt.Errorf("cannot use sandboxed include without a security policy")
-			}
+		// Check if a security policy is defined
+		if ctx.env.securityPolicy == nil {
+			return fmt.Errorf("cannot use sandboxed include without a security policy")
 		}
 	}
 
